@@ -633,10 +633,12 @@ Lemma format_iter_S f rest cur off :
   | Some (_, rest') =>
       match quoted_span rest with
       | Some span =>
-          match convert span (leading_ws rest) off with
-          | Some new => format_iter f rest' (replace_all (S (List.length cur)) cur span new) off
-          | None => None
-          end
+          if occurs span cur then
+            match convert span (leading_ws rest) off with
+            | Some new => format_iter f rest' (replace_all (S (List.length cur)) cur span new) off
+            | None => None
+            end
+          else format_iter f rest' cur off
       | None => format_iter f rest' cur off
       end
   end.
@@ -648,63 +650,229 @@ Proof. intros [-> | ->]; reflexivity. Qed.
 Definition emitted_stmt (pre suf : chars) (k : nat) (lines : list chars) : chars :=
   pre ++ (DQ3 ++ NL :: emitted k lines ++ spaces k ++ DQ3) ++ suf.
 
-(* what format_multiline_strings makes of the statement: nothing when the regex does not match, the
-   triple-quoted literal when it matches once *)
-Lemma format_line_stmt a b suf off lines :
-  good_prefix a b -> suf = [] \/ suf = [")"] -> lines <> [] -> Forall (fun l => has NL l = false) lines ->
-  let pre := a ++ EQc :: b in
-  (matches pre suf lines = 0 -> format_line (stmt pre suf lines) off = Some (stmt pre suf lines)) /\
-  (matches pre suf lines = 1 ->
-   format_line (stmt pre suf lines) off = Some (emitted_stmt pre suf (leading_ws pre + off) lines)).
+Lemma occurs_app old a b : occurs old (a ++ old ++ b) = true.
 Proof.
-  intros Hg Hsuf Hne Hn pre. unfold matches, format_line.
-  assert (Hlen : exists n, List.length (stmt pre suf lines) = S (S n)).
-  { unfold stmt, pre. destruct (pieces_ends lines Hne) as (q1 & x & q2 & E & _). rewrite E.
-    exists (S (List.length a + List.length b + List.length x + List.length suf)).
-    rewrite !app_length. cbn [List.length]. rewrite !app_length. cbn [List.length]. lia. }
-  destruct Hlen as [n Hlen]. rewrite Hlen.
-  destruct (find_match (stmt pre suf lines)) as [[t rest']|] eqn:E1;
-    [destruct (find_match rest') as [[t2 r2]|] eqn:E2|]; split; intro Hm; try discriminate.
-  - rewrite format_iter_S, E1. unfold stmt at 1. rewrite quoted_span_stmt;
-      [| apply noq_prefix; exact Hg | apply noq_suf; exact Hsuf | exact Hne].
-    unfold stmt at 1, pre at 1. rewrite leading_ws_prefix. fold pre.
-    rewrite convert_pieces by assumption.
-    rewrite format_iter_S, E2. f_equal.
-    destruct (pieces_ends lines Hne) as (q1 & x & q2 & E & H1 & H2).
-    unfold stmt, emitted_stmt. rewrite E.
-    match goal with
-    | |- replace_all ?F _ _ ?N = _ =>
-        pose proof (replace_all_stmt pre q1 (x ++ [q2]) suf N F) as R
-    end.
-    apply R.
-    + apply noq_has; [apply noq_prefix; exact Hg | exact H1].
-    + apply noq_has; [apply noq_suf; exact Hsuf | exact H1].
-    + rewrite app_length. lia.
-  - rewrite format_iter_S, E1. reflexivity.
+  induction a as [|c a IH]; cbn [app].
+  - destruct (old ++ b) eqn:E; cbn [occurs]; rewrite <- ?E, is_prefix_app; reflexivity.
+  - cbn [occurs]. rewrite IH. apply orb_true_r.
 Qed.
 
-(* ---------------------------------------------------------------- the round trip *)
-Theorem embed_roundtrip a b suf paren off lines :
-  good_prefix a b -> suf = [] \/ suf = [")"] -> lines <> [] -> Forall (fun l => has NL l = false) lines ->
-  let pre := a ++ EQc :: b in
-  (matches pre suf lines = 0 -> embed pre suf paren off lines = EvOk (joined lines) suf) /\
-  (matches pre suf lines = 1 ->
-   embed pre suf paren off lines = EvOk (embedded (leading_ws pre + off) lines) suf).
+(* ---------------------------------------------------------------- backslash runs: why later matches change nothing *)
+(* [oddn p l]: somewhere in l an n follows a maximal run of backslashes of odd length (p: the parity of the
+   run that is open where l starts).  True of every span the regex can pick after the first rewrite (it
+   ends with the backslash-n of a repr'd line), false of the rewritten text (there a backslash before an n
+   is always the second half of an escaped backslash). *)
+Fixpoint oddn (p : bool) (l : chars) : bool :=
+  match l with
+  | [] => false
+  | c :: r => if ceq c BS then oddn (negb p) r else (p && ceq c "n") || oddn false r
+  end.
+
+Fixpoint endpar (p : bool) (l : chars) : bool :=
+  match l with
+  | [] => p
+  | c :: r => if ceq c BS then endpar (negb p) r else endpar false r
+  end.
+
+Lemma oddn_app p a b : oddn p (a ++ b) = oddn p a || oddn (endpar p a) b.
 Proof.
-  intros Hg Hsuf Hne Hn pre.
-  destruct (format_line_stmt a b suf off lines Hg Hsuf Hne Hn) as [F0 F1]. fold pre in F0, F1.
-  unfold embed. split; intro Hm.
-  - rewrite (F0 Hm). unfold eval_stmt, stmt. rewrite is_prefix_app, skipn_app_exact.
-    apply eval_pieces_stmt; assumption.
-  - rewrite (F1 Hm). unfold eval_stmt, emitted_stmt. rewrite is_prefix_app, skipn_app_exact.
-    set (k := leading_ws pre + off).
-    match goal with
-    | |- eval_literals _ _ _ ?T = _ =>
-        assert (E : T = DQ3 ++ NL :: emitted k lines ++ spaces k ++ DQ3 ++ suf)
-          by (repeat (rewrite <- app_assoc; cbn [app]); reflexivity);
-        rewrite E
-    end.
-    apply eval_embedded; [exact Hsuf | lia].
+  revert p. induction a as [|c a IH]; intro p; cbn [app oddn endpar]; [reflexivity|].
+  destruct (ceq c BS); [apply IH|]. rewrite IH, orb_assoc. reflexivity.
+Qed.
+
+Lemma endpar_app p a b : endpar p (a ++ b) = endpar (endpar p a) b.
+Proof.
+  revert p. induction a as [|c a IH]; intro p; cbn [app endpar]; [reflexivity|].
+  destruct (ceq c BS); apply IH.
+Qed.
+
+Lemma oddn_nobs p l : has BS l = false -> oddn p l = match l with c :: _ => p && ceq c "n" | [] => false end.
+Proof.
+  revert p. induction l as [|c l IH]; intros p H; [reflexivity|].
+  apply has_cons_false in H as [H1 H2]. cbn [oddn]. rewrite H1, (IH false H2).
+  destruct l; cbn; rewrite ?orb_false_r; reflexivity.
+Qed.
+
+Lemma endpar_nobs p l : has BS l = false -> endpar p l = match l with [] => p | _ => false end.
+Proof.
+  revert p. induction l as [|c l IH]; intros p H; [reflexivity|].
+  apply has_cons_false in H as [H1 H2]. cbn [endpar]. rewrite H1, (IH false H2). destruct l; reflexivity.
+Qed.
+
+(* an occurrence that starts with a character other than the backslash carries its odd run with it *)
+Lemma occurs_split old : forall src, occurs old src = true -> exists u v, src = u ++ old ++ v.
+Proof.
+  induction src as [|c r IH]; cbn [occurs]; intro H.
+  - rewrite orb_false_r in H. destruct old; [exists [], []; reflexivity | discriminate].
+  - apply orb_true_iff in H as [H|H].
+    + exists []. clear IH. revert H. generalize (c :: r). induction old as [|x old IHo]; intros l H.
+      * exists l. reflexivity.
+      * destruct l as [|y l]; [discriminate|]. cbn [is_prefix] in H. apply andb_true_iff in H as [H1 H2].
+        apply ceq_eq in H1. subst. destruct (IHo l H2) as [v E]. exists v. cbn [app] in *. rewrite E. reflexivity.
+    + destruct (IH H) as (u & v & E). exists (c :: u), v. rewrite E. reflexivity.
+Qed.
+
+Lemma oddn_infix q0 z src : ceq q0 BS = false -> oddn false z = true -> oddn false src = false ->
+  occurs (q0 :: z) src = false.
+Proof.
+  intros Hq Hz Hs. destruct (occurs (q0 :: z) src) eqn:E; [|reflexivity].
+  apply occurs_split in E as (u & v & ->). exfalso.
+  rewrite oddn_app in Hs. apply orb_false_iff in Hs as [_ Hs].
+  cbn [app oddn] in Hs. rewrite Hq in Hs. apply orb_false_iff in Hs as [_ Hs].
+  rewrite oddn_app, Hz in Hs. discriminate.
+Qed.
+
+(* --- the rewritten text has no odd run before an n --- *)
+Lemma esc_char_oddn c r : c <> NL -> oddn false (esc_char c ++ r) = oddn false r.
+Proof.
+  intro H. destruct c as [[] [] [] [] [] [] [] []]; try reflexivity. exfalso. apply H. reflexivity.
+Qed.
+
+Lemma esc3_oddn : forall l r, has NL l = false -> oddn false (esc3 l ++ r) = oddn false r.
+Proof.
+  apply (esc3_ind (fun l => forall r, has NL l = false -> oddn false (esc3 l ++ r) = oddn false r)).
+  - reflexivity.
+  - intros l IH r H. rewrite esc3_triple. cbn [app]. cbn [oddn]. cbn. apply IH.
+    apply has_cons_false in H as [_ H]. apply has_cons_false in H as [_ H]. apply has_cons_false in H as [_ H]. exact H.
+  - intros c l E IH r H. apply has_cons_false in H as [H1 H2]. rewrite esc3_other by exact E.
+    rewrite <- app_assoc, esc_char_oddn by (apply ceq_neq; exact H1). apply IH. exact H2.
+Qed.
+
+Lemma spaces_oddn k r : oddn false (spaces k ++ r) = oddn false r.
+Proof. induction k as [|k IH]; [reflexivity|]. cbn [spaces repeat app oddn]. cbn. exact IH. Qed.
+
+Lemma emitted_oddn k lines r : Forall (fun l => has NL l = false) lines ->
+  oddn false (emitted k lines ++ r) = oddn false r.
+Proof.
+  unfold emitted. induction 1 as [|l ls H1 H2 IH]; [reflexivity|].
+  cbn [flat_map]. rewrite <- !app_assoc.
+  assert (Hp : forall x, oddn false (pad k l ++ x) = oddn false x)
+    by (intro x; unfold pad; destruct l; [reflexivity | apply spaces_oddn]).
+  rewrite Hp, esc3_oddn by exact H1. cbn [app oddn]. cbn. exact IH.
+Qed.
+
+Lemma emitted_stmt_oddn pre suf k lines :
+  has BS pre = false -> has BS suf = false -> Forall (fun l => has NL l = false) lines ->
+  oddn false (emitted_stmt pre suf k lines) = false.
+Proof.
+  intros Hp Hs Hn. unfold emitted_stmt. rewrite oddn_app, (oddn_nobs false pre Hp).
+  assert (E0 : (match pre with c :: _ => false && ceq c "n" | [] => false end) = false) by (destruct pre; reflexivity).
+  rewrite E0. cbn [orb].
+  assert (Ep : endpar false pre = false) by (rewrite endpar_nobs by exact Hp; destruct pre; reflexivity).
+  rewrite Ep. unfold DQ3. repeat (rewrite <- app_assoc; cbn [app]). cbn [oddn]. cbn.
+  rewrite emitted_oddn by exact Hn. rewrite spaces_oddn. cbn [app oddn]. cbn.
+  rewrite (oddn_nobs false suf Hs). destruct suf; reflexivity.
+Qed.
+(* --- every span picked after the first rewrite ends with an odd run before an n --- *)
+Lemma repr_char_tail q x : q = SQ \/ q = DQ -> x <> BS ->
+  exists T y, repr_char q x = T ++ [y] /\ ceq y BS = false.
+Proof.
+  intros [-> | ->] H; destruct x as [[] [] [] [] [] [] [] []];
+    try (exfalso; apply H; reflexivity);
+    first [ exists [] ; eexists; split; reflexivity
+          | exists [BS]; eexists; split; reflexivity
+          | exists [BS; "x"%char; "0"%char]; eexists; split; reflexivity
+          | exists [BS; "x"%char; "1"%char]; eexists; split; reflexivity
+          | exists [BS; "x"%char; "7"%char]; eexists; split; reflexivity ].
+Qed.
+
+Lemma repeat_snoc2 {X} (x : X) j : repeat x (2 * j) ++ [x; x] = repeat x (2 * S j).
+Proof.
+  replace (2 * S j) with (2 * j + 2) by lia. rewrite repeat_app. reflexivity.
+Qed.
+
+Lemma tail_dec q : q = SQ \/ q = DQ -> forall l,
+  exists M c j, q :: flat_map (repr_char q) l = M ++ c :: repeat BS (2 * j) /\ ceq c BS = false.
+Proof.
+  intros Hq l. induction l as [|x l IH] using rev_ind.
+  - exists [], q, 0. split; [reflexivity | destruct Hq as [-> | ->]; reflexivity].
+  - destruct IH as (M & c & j & E & Hc). rewrite flat_map_app. cbn [flat_map]. rewrite app_nil_r.
+    rewrite app_comm_cons, E.
+    destruct (ceq x BS) eqn:Ex.
+    + apply ceq_eq in Ex. subst x. exists M, c, (S j). split; [|exact Hc].
+      replace (repr_char q BS) with [BS; BS] by (destruct Hq as [-> | ->]; reflexivity).
+      rewrite <- app_assoc. cbn [app]. rewrite repeat_snoc2. reflexivity.
+    + destruct (repr_char_tail q x Hq) as (T & y & Et & Hy); [apply ceq_neq; exact Ex|].
+      exists ((M ++ c :: repeat BS (2 * j)) ++ T), y, 0. rewrite Et. split; [|exact Hy].
+      cbn [repeat Nat.mul]. rewrite app_assoc. reflexivity.
+Qed.
+
+Lemma body_tail l : body l = flat_map (repr_char (rq l)) l ++ [BS; "n"].
+Proof.
+  unfold body. rewrite flat_map_app. cbn [flat_map]. rewrite app_nil_r.
+  destruct (rq_cases l) as [E|E]; rewrite E; reflexivity.
+Qed.
+
+(* the constants end with: a character other than the backslash, an even run, backslash n quote *)
+Lemma pieces_tail lines : lines <> [] ->
+  exists M c j q2, pieces lines = (M ++ [c]) ++ (repeat BS (2 * j) ++ [BS; "n"; q2])
+                   /\ ceq c BS = false /\ isq q2 = true.
+Proof.
+  intro Hne. destruct (exists_last Hne) as (ls & l & ->).
+  unfold pieces. rewrite flat_map_app. cbn [flat_map]. rewrite app_nil_r, piece_eq, body_tail.
+  destruct (tail_dec (rq l) (rq_cases l) l) as (M & c & j & E & Hc).
+  exists (flat_map piece ls ++ M), c, j, (rq l). split; [|split; [exact Hc | apply isq_q, rq_cases]].
+  rewrite app_comm_cons, <- app_assoc, app_comm_cons, E.
+  repeat (rewrite <- app_assoc; cbn [app]). reflexivity.
+Qed.
+
+Lemma oddn_even_run p j r : oddn p (repeat BS (2 * j) ++ r) = oddn p r.
+Proof.
+  induction j as [|j IH]; [reflexivity|].
+  replace (2 * S j) with (S (S (2 * j))) by lia. cbn [repeat app].
+  change (oddn p (BS :: BS :: repeat BS (2 * j) ++ r)) with (oddn (negb (negb p)) (repeat BS (2 * j) ++ r)).
+  rewrite negb_involutive. exact IH.
+Qed.
+
+Lemma endpar_snoc p x c : ceq c BS = false -> endpar p (x ++ [c]) = false.
+Proof. intro H. rewrite endpar_app. cbn [endpar]. rewrite H. reflexivity. Qed.
+
+Lemma isq_not_bs q : isq q = true -> ceq q BS = false.
+Proof.
+  unfold isq. intro H. apply orb_true_iff in H as [H|H]; apply ceq_eq in H; subst; reflexivity.
+Qed.
+
+Lemma noq_app a b : noq (a ++ b) = noq a && noq b.
+Proof. unfold noq. apply forallb_app. Qed.
+
+Lemma noq_In l x : noq l = true -> In x l -> isq x = false.
+Proof. unfold noq. rewrite forallb_forall. intros H Hx. apply negb_true_iff. apply H. exact Hx. Qed.
+
+(* a suffix of the constants that starts with a quote and goes on *)
+Lemma suffix_oddn lines W q0 Z : lines <> [] -> pieces lines = W ++ q0 :: Z -> isq q0 = true -> Z <> [] ->
+  oddn false Z = true.
+Proof.
+  intros Hne E Hq HZ. destruct (pieces_tail lines Hne) as (M & c & j & q2 & Ep & Hc & Hq2).
+  rewrite Ep in E. set (Rr := repeat BS (2 * j) ++ [BS; "n"%char; q2]) in *.
+  assert (HRr : oddn false Rr = true).
+  { unfold Rr. rewrite oddn_even_run. cbn [oddn]. rewrite ceq_refl. cbn. reflexivity. }
+  assert (Hnoq : noq (repeat BS (2 * j) ++ [BS; "n"%char]) = true).
+  { rewrite noq_app. apply andb_true_iff. split; [|reflexivity].
+    unfold noq. apply forallb_forall. intros x Hx. apply repeat_spec in Hx. subst. reflexivity. }
+  symmetry in E. apply app_eq_app in E as [l' [[E1 E2]|[E1 E2]]].
+  - (* the quote lies in the tail: it can only be the last character *)
+    exfalso. unfold Rr in E2.
+    replace (repeat BS (2 * j) ++ [BS; "n"%char; q2]) with ((repeat BS (2 * j) ++ [BS; "n"%char]) ++ [q2]) in E2
+      by (rewrite <- app_assoc; reflexivity).
+    apply app_eq_app in E2 as [l2 [[E3 E4]|[E3 E4]]].
+    + destruct l2 as [|y l2]; cbn [app] in E4.
+      * inversion E4. subst. apply HZ. reflexivity.
+      * inversion E4; subst y. assert (Hin : In q0 (repeat BS (2 * j) ++ [BS; "n"%char])).
+        { rewrite E3. apply in_or_app. right. left. reflexivity. }
+        rewrite (noq_In _ _ Hnoq Hin) in Hq. discriminate.
+    + destruct l2 as [|y l2]; cbn [app] in E4.
+      * inversion E4. subst. apply HZ. reflexivity.
+      * inversion E4 as [[E5 E6]]. destruct l2; discriminate.
+  - (* the quote lies before the tail *)
+    destruct l' as [|y l']; cbn [app] in E2.
+    + exfalso. unfold Rr in E2. assert (Hb : q0 = BS) by (destruct j; cbn in E2; inversion E2; reflexivity).
+      subst q0. discriminate.
+    + inversion E2; subst y Z. rewrite oddn_app. apply orb_true_iff. right.
+      assert (Hend : endpar false l' = false).
+      { destruct l' as [|z l' _] using rev_ind; [reflexivity|].
+        assert (E3 : M ++ [c] = (W ++ q0 :: l') ++ [z]) by (rewrite E1, <- app_assoc; reflexivity).
+        apply app_inj_tail in E3 as [_ <-]. apply endpar_snoc. exact Hc. }
+      rewrite Hend. exact HRr.
 Qed.
 
 (* ---------------------------------------------------------------- when does the regex match exactly once *)
@@ -869,3 +1037,233 @@ Definition uniform (k : nat) (lines : list chars) : chars :=
 
 Lemma embedded_uniform k lines : embedded k lines = uniform k lines.
 Proof. reflexivity. Qed.
+
+(* ---------------------------------------------------------------- any number of matches *)
+Lemma upto_split c : forall l a r, upto c l = Some (a, r) -> l = a ++ r.
+Proof.
+  induction l as [|y l IH]; simpl; intros a r E; [discriminate|].
+  destruct (ceq y c); [inversion E; reflexivity|].
+  destruct (upto c l) as [[a' b']|] eqn:E'; [|discriminate]. inversion E; subst. rewrite (IH a' r eq_refl). reflexivity.
+Qed.
+
+Lemma take_drop_while p l : take_while p l ++ drop_while p l = l.
+Proof. induction l as [|c l IH]; simpl; [reflexivity|]. destruct (p c); simpl; [rewrite IH|]; reflexivity. Qed.
+
+Lemma next_group_split l g r : next_group l = Some (g, r) -> l = g ++ r.
+Proof.
+  unfold next_group. intro H. rewrite <- (take_drop_while is_ws l) at 1.
+  destruct (drop_while is_ws l) as [|c t]; [discriminate|].
+  destruct (ceq c SQ); [|discriminate]. destruct (upto SQ t) as [[g' r']|] eqn:E; [|discriminate].
+  inversion H; subst. apply upto_split in E. rewrite E, <- app_assoc. reflexivity.
+Qed.
+
+Lemma find_j_split : forall l g r, find_j l = Some (g, r) -> l = g ++ r.
+Proof.
+  induction l as [|c l IH]; simpl; intros g r H; [discriminate|].
+  destruct (ceq c SQ).
+  - destruct (next_group l) as [[g' r']|] eqn:E.
+    + inversion H; subst. apply next_group_split in E. rewrite E. reflexivity.
+    + destruct (find_j l) as [[a b]|]; [|discriminate]. inversion H; subst. rewrite (IH a r eq_refl). reflexivity.
+  - destruct (find_j l) as [[a b]|]; [|discriminate]. inversion H; subst. rewrite (IH a r eq_refl). reflexivity.
+Qed.
+
+Lemma chain_split : forall f l a b, chain f l = (a, b) -> l = a ++ b.
+Proof.
+  induction f as [|f IH]; intros l a b H; [inversion H; reflexivity|].
+  rewrite chain_S in H. destruct (next_group l) as [[g r]|] eqn:E; [|inversion H; reflexivity].
+  destruct (chain f r) as [a' b'] eqn:Ec. inversion H; subst. apply next_group_split in E.
+  rewrite E, (IH r a' b Ec), app_assoc. reflexivity.
+Qed.
+
+Lemma find_match_split l t r : find_match l = Some (t, r) -> l = t ++ r.
+Proof.
+  unfold find_match. intro H.
+  destruct (upto EQc l) as [[a r0]|] eqn:E0; [|discriminate].
+  destruct (upto SQ r0) as [[b r1]|] eqn:E1; [|discriminate].
+  destruct (find_j r1) as [[g r2]|] eqn:E2; [|discriminate].
+  destruct (chain (List.length r2) r2) as [gs r3] eqn:E3. inversion H; subst.
+  apply upto_split in E0, E1. apply find_j_split in E2. apply chain_split in E3.
+  rewrite E0, E1, E2, E3. rewrite <- (take_drop_while is_ws r3) at 1.
+  repeat rewrite <- app_assoc. reflexivity.
+Qed.
+
+(* the span: a quote, something, a quote; nothing but non-quotes before and after it *)
+Lemma upto_q_spec : forall l a r, upto_q l = Some (a, r) ->
+  exists a' q, a = a' ++ [q] /\ isq q = true /\ noq a' = true /\ l = a ++ r.
+Proof.
+  induction l as [|x l IH]; cbn [upto_q]; intros a r H; [discriminate|].
+  destruct (isq x) eqn:Ex.
+  - inversion H; subst. exists [], x. repeat split; auto.
+  - destruct (upto_q l) as [[a0 b0]|] eqn:E; [|discriminate]. inversion H; subst.
+    destruct (IH a0 r eq_refl) as (a' & q & -> & Hq & Hn & ->).
+    exists (x :: a'), q. repeat split; auto. cbn [noq forallb]. rewrite Ex. exact Hn.
+Qed.
+
+Lemma split_last_q_spec : forall l b c, split_last_q l = Some (b, c) ->
+  exists b' q, b = b' ++ [q] /\ isq q = true /\ noq c = true /\ l = b ++ c.
+Proof.
+  induction l as [|x l IH]; cbn [split_last_q]; intros b c H; [discriminate|].
+  destruct (split_last_q l) as [[b0 c0]|] eqn:E.
+  - inversion H; subst. destruct (IH b0 c eq_refl) as (b' & q & -> & Hq & Hn & ->).
+    exists (x :: b'), q. repeat split; auto.
+  - destruct (isq x) eqn:Ex; [|discriminate]. inversion H; subst.
+    exists [], x. repeat split; auto.
+    clear -E. induction c as [|y c IHc]; [reflexivity|]. cbn [split_last_q] in E.
+    destruct (split_last_q c) as [[? ?]|]; [discriminate|]. destruct (isq y) eqn:Ey; [discriminate|].
+    cbn [noq forallb]. rewrite Ey. apply IHc. reflexivity.
+Qed.
+
+Lemma quoted_span_spec t span : quoted_span t = Some span ->
+  exists A q0 Z q2 C, span = q0 :: Z ++ [q2] /\ isq q0 = true /\ isq q2 = true /\ noq C = true /\
+                      t = A ++ span ++ C.
+Proof.
+  unfold quoted_span. intro H. destruct (upto_q t) as [[a r]|] eqn:E1; [|discriminate].
+  destruct (split_last_q r) as [[b c]|] eqn:E2; [|discriminate]. inversion H; subst.
+  destruct (upto_q_spec _ _ _ E1) as (a' & q & -> & Hq & _ & ->).
+  destruct (split_last_q_spec _ _ _ E2) as (b' & q2 & -> & Hq2 & Hn & ->).
+  exists a', q, b', q2, c. rewrite last_last. repeat split; auto.
+  repeat (rewrite <- app_assoc; cbn [app]). reflexivity.
+Qed.
+
+(* the position of the last quote of a text is unique *)
+Lemma last_quote_unique x q c x' q' c' :
+  isq q = true -> isq q' = true -> noq c = true -> noq c' = true ->
+  x ++ q :: c = x' ++ q' :: c' -> x = x' /\ c = c'.
+Proof.
+  intros Hq Hq' Hc Hc' E.
+  assert (R : rev c ++ q :: rev x = rev c' ++ q' :: rev x').
+  { apply (f_equal (@rev ascii)) in E. rewrite !rev_app_distr in E. cbn [rev] in E.
+    rewrite <- !app_assoc in E. exact E. }
+  assert (G : forall a a' r r', noq a = true -> noq a' = true -> a ++ q :: r = a' ++ q' :: r' -> a = a' /\ r = r').
+  { induction a as [|y a IH]; intros [|y' a'] r r' Ha Ha' Ea; cbn [app] in Ea.
+    - inversion Ea. auto.
+    - inversion Ea; subst. cbn [noq forallb] in Ha'. rewrite Hq in Ha'. discriminate.
+    - inversion Ea; subst. cbn [noq forallb] in Ha. rewrite Hq' in Ha. discriminate.
+    - inversion Ea; subst. cbn [noq forallb] in Ha, Ha'. apply andb_true_iff in Ha as [_ Ha], Ha' as [_ Ha'].
+      destruct (IH a' r r' Ha Ha' H1) as [-> ->]. auto. }
+  assert (Hrc : forall l, noq l = true -> noq (rev l) = true).
+  { intros l Hl. unfold noq in *. rewrite forallb_forall in *. intros y Hy. apply Hl. apply in_rev. exact Hy. }
+  destruct (G _ _ _ _ (Hrc c Hc) (Hrc c' Hc') R) as [E1 E2].
+  split; [apply (f_equal (@rev ascii)) in E2 | apply (f_equal (@rev ascii)) in E1]; rewrite !rev_involutive in *; assumption.
+Qed.
+
+(* a suffix of pre ++ P that starts with a quote is a suffix of P (no quote in pre) *)
+Lemma suffix_past_prefix : forall pre U P q0 Z, noq pre = true -> isq q0 = true ->
+  U ++ q0 :: Z = pre ++ P -> exists W, P = W ++ q0 :: Z.
+Proof.
+  induction pre as [|c pre IH]; intros U P q0 Z Hn Hq E; cbn [app] in E.
+  - exists U. symmetry. exact E.
+  - cbn [noq forallb] in Hn. apply andb_true_iff in Hn as [Hc Hn]. destruct U as [|u U]; cbn [app] in E.
+    + inversion E; subst. rewrite Hq in Hc. discriminate.
+    + inversion E; subst. eapply IH; eassumption.
+Qed.
+
+(* what the regex can pick in any suffix of the statement does not occur in the rewritten statement *)
+Lemma later_span_absent pre suf k lines W rest span :
+  noq pre = true -> has BS pre = false -> suf = [] \/ suf = [")"] -> lines <> [] ->
+  Forall (fun l => has NL l = false) lines ->
+  stmt pre suf lines = W ++ rest -> quoted_span rest = Some span ->
+  occurs span (emitted_stmt pre suf k lines) = false.
+Proof.
+  intros Hp Hb Hsuf Hne Hn Est Hsp.
+  destruct (quoted_span_spec _ _ Hsp) as (A & q0 & Z & q2 & C & -> & Hq0 & Hq2 & HC & Er).
+  destruct (pieces_ends lines Hne) as (p1 & x & p2 & Ep & Hp1 & Hp2).
+  assert (Hs : noq suf = true) by (apply noq_suf; exact Hsuf).
+  (* both decompositions end with "last quote, then no quote" *)
+  assert (E : (W ++ A ++ q0 :: Z) ++ q2 :: C = (pre ++ p1 :: x) ++ p2 :: suf).
+  { unfold stmt in Est. rewrite Ep, Er in Est.
+    transitivity (W ++ A ++ (q0 :: Z ++ [q2]) ++ C);
+      [repeat (rewrite <- app_assoc; cbn [app]); reflexivity|].
+    rewrite <- Est. repeat (rewrite <- app_assoc; cbn [app]). reflexivity. }
+  destruct (last_quote_unique _ _ _ _ _ _ Hq2 Hp2 HC Hs E) as [E1 _].
+  pose proof E as E0. rewrite E1 in E0. apply app_inv_head in E0. injection E0 as Eq _.
+  rewrite <- Eq in *. clear Eq.
+  assert (E2 : (W ++ A) ++ q0 :: Z ++ [q2] = pre ++ pieces lines).
+  { rewrite Ep. transitivity ((pre ++ p1 :: x) ++ [q2]); [|rewrite <- app_assoc; reflexivity].
+    rewrite <- E1. repeat (rewrite <- app_assoc; cbn [app]). reflexivity. }
+  destruct (suffix_past_prefix _ _ _ _ _ Hp Hq0 E2) as [W' EW].
+  apply oddn_infix.
+  - apply isq_not_bs. exact Hq0.
+  - eapply suffix_oddn; [exact Hne | exact EW | exact Hq0 | destruct Z; discriminate].
+  - apply emitted_stmt_oddn; [exact Hb | destruct Hsuf as [-> | ->]; reflexivity | exact Hn].
+Qed.
+
+(* once rewritten, the statement stays as it is through every further match *)
+Lemma format_iter_stable pre suf k lines off :
+  noq pre = true -> has BS pre = false -> suf = [] \/ suf = [")"] -> lines <> [] ->
+  Forall (fun l => has NL l = false) lines ->
+  forall fuel W rest, stmt pre suf lines = W ++ rest ->
+  format_iter fuel rest (emitted_stmt pre suf k lines) off = Some (emitted_stmt pre suf k lines).
+Proof.
+  intros Hp Hb Hsuf Hne Hn. induction fuel as [|fuel IH]; intros W rest E; [reflexivity|].
+  rewrite format_iter_S. destruct (find_match rest) as [[t rest']|] eqn:Em; [|reflexivity].
+  assert (E' : stmt pre suf lines = (W ++ t) ++ rest').
+  { rewrite E, (find_match_split _ _ _ Em), app_assoc. reflexivity. }
+  destruct (quoted_span rest) as [span|] eqn:Es; [|apply (IH _ _ E')].
+  rewrite (later_span_absent pre suf k lines W rest span) by assumption. apply (IH _ _ E').
+Qed.
+
+Lemma format_line_all a b suf off lines :
+  good_prefix a b -> has BS (a ++ EQc :: b) = false -> suf = [] \/ suf = [")"] -> lines <> [] ->
+  Forall (fun l => has NL l = false) lines ->
+  let pre := a ++ EQc :: b in
+  format_line (stmt pre suf lines) off
+  = Some (match find_match (stmt pre suf lines) with
+          | None => stmt pre suf lines
+          | Some _ => emitted_stmt pre suf (leading_ws pre + off) lines
+          end).
+Proof.
+  intros Hg Hb Hsuf Hne Hn pre. unfold format_line.
+  assert (Hnq : noq pre = true) by (apply noq_prefix; exact Hg).
+  destruct (pieces_ends lines Hne) as (q1 & x & q2 & E & H1 & H2).
+  assert (Hlen : exists n, List.length (stmt pre suf lines) = S n).
+  { unfold stmt. rewrite E. exists (List.length pre + List.length (x ++ [q2]) + List.length suf).
+    rewrite !app_length. cbn [List.length]. rewrite app_length. cbn [List.length]. lia. }
+  destruct Hlen as [n Hlen]. rewrite Hlen. rewrite format_iter_S.
+  destruct (find_match (stmt pre suf lines)) as [[t rest']|] eqn:E1; [|reflexivity].
+  unfold stmt at 1. rewrite quoted_span_stmt; [| exact Hnq | apply noq_suf; exact Hsuf | exact Hne].
+  unfold stmt at 1. rewrite occurs_app.
+  unfold stmt at 1, pre at 1. rewrite leading_ws_prefix. fold pre.
+  rewrite convert_pieces by assumption.
+  assert (Er : replace_all (S (List.length (stmt pre suf lines))) (stmt pre suf lines) (pieces lines)
+                 (DQ3 ++ NL :: emitted (leading_ws pre + off) lines ++ spaces (leading_ws pre + off) ++ DQ3)
+               = emitted_stmt pre suf (leading_ws pre + off) lines).
+  { unfold stmt, emitted_stmt. rewrite E.
+    match goal with
+    | |- replace_all ?F _ _ ?N = _ => pose proof (replace_all_stmt pre q1 (x ++ [q2]) suf N F) as R
+    end.
+    apply R.
+    - apply noq_has; [exact Hnq | exact H1].
+    - apply noq_has; [apply noq_suf; exact Hsuf | exact H1].
+    - rewrite app_length. lia. }
+  rewrite Er.
+  apply (format_iter_stable pre suf (leading_ws pre + off) lines off Hnq Hb Hsuf Hne Hn (S n) t rest').
+  apply find_match_split. exact E1.
+Qed.
+
+(* ---------------------------------------------------------------- the round trip, every list of lines *)
+Theorem embed_roundtrip_all a b suf paren off lines :
+  good_prefix a b -> has BS (a ++ EQc :: b) = false -> suf = [] \/ suf = [")"] -> lines <> [] ->
+  Forall (fun l => has NL l = false) lines ->
+  let pre := a ++ EQc :: b in
+  embed pre suf paren off lines
+  = EvOk (match find_match (stmt pre suf lines) with
+          | None => joined lines
+          | Some _ => embedded (leading_ws pre + off) lines
+          end) suf.
+Proof.
+  intros Hg Hb Hsuf Hne Hn pre. unfold embed.
+  pose proof (format_line_all a b suf off lines Hg Hb Hsuf Hne Hn) as F. cbv zeta in F. fold pre in F.
+  rewrite F.
+  destruct (find_match (stmt pre suf lines)) as [[t r]|].
+  - unfold eval_stmt, emitted_stmt. rewrite is_prefix_app, skipn_app_exact.
+    set (k := leading_ws pre + off).
+    match goal with
+    | |- eval_literals _ _ _ ?T = _ =>
+        assert (E : T = DQ3 ++ NL :: emitted k lines ++ spaces k ++ DQ3 ++ suf)
+          by (repeat (rewrite <- app_assoc; cbn [app]); reflexivity);
+        rewrite E
+    end.
+    apply eval_embedded; [exact Hsuf | lia].
+  - unfold eval_stmt, stmt. rewrite is_prefix_app, skipn_app_exact. apply eval_pieces_stmt; assumption.
+Qed.
